@@ -51,6 +51,9 @@ class Type(Scope):
             return
         self.inherit_version = inherit_version
         self.inherit_var = find_in_scope(self.parent, self.inherit, obj_tree)
+        # Types that extend themselves or each other
+        if self.links_back(self.inherit_var, "inherit_var"):
+            self.inherit_var = None
         if self.inherit_var is not None:
             self._resolve_inherit_parent(obj_tree, inherit_version)
 
